@@ -274,67 +274,26 @@ theorem revoke_inv {s s' : State} {a : Nat} (wf : WF s) (inv : DistInv s)
 
 /-! ### staking hook -/
 
-/-- the hypothesis under which the hook is exact: every weighted split of the power difference is
-    integral (`10^20 ∣ diff · w`) -/
-def Divisible (diff : Int) (ws : List GP) : Prop := ∀ w ∈ ws, maxW ∣ diff * w.2
+theorem aerase_idem {κ β : Type} [DecidableEq κ] (k : κ) (l : List (κ × β)) : aerase k (aerase k l) = aerase k l :=
+  aerase_of_none (alookup_aerase_self k l)
 
-theorem gpow_add_of_dvd {vp diff w : Int} (h0 : 0 ≤ vp * w) (h1 : 0 ≤ (vp + diff) * w) (hd : maxW ∣ diff * w) :
-    gpow (vp + diff) w = gpow vp w + gpow diff w := by
-  obtain ⟨k, hk⟩ := hd
-  unfold gpow
-  have e : (vp + diff) * w = vp * w + maxW * k := by rw [Int.add_mul, hk]
-  rw [e] at h1 ⊢
-  rw [hk, Int.tdiv_eq_ediv_of_nonneg h0, Int.tdiv_eq_ediv_of_nonneg h1,
-    Int.add_mul_ediv_left _ _ (Int.ne_of_gt maxW_pos), Int.mul_tdiv_cancel_left _ (Int.ne_of_gt maxW_pos)]
-
-theorem wpow_add_of_dvd {vp diff : Int} {ws : List GP} (h0 : 0 ≤ vp) (h1 : 0 ≤ vp + diff)
-    (hpos : ∀ w ∈ ws, 0 < w.2) (hd : Divisible diff ws) (g : Nat) :
-    wpow (vp + diff) ws g = wpow vp ws g + wpow diff ws g := by
-  induction ws with
-  | nil => simp [wpow]
-  | cons w ws ih =>
-    have hw := Int.le_of_lt (hpos w (by simp))
-    have e := gpow_add_of_dvd (Int.mul_nonneg h0 hw) (Int.mul_nonneg h1 hw) (hd w (by simp))
-    have := ih (fun x hx => hpos x (by simp [hx])) (fun x hx => hd x (by simp [hx]))
-    simp only [wpow]; split <;> omega
-
+/-- the hook keeps the invariant for EVERY old/new power: it is a revoke (or: subtract the old
+    contribution) followed by adding the contribution of the new power -/
 theorem processHook_inv {s : State} {a val : Nat} {v : Vote} {old new : Int} (wf : WF s) (inv : DistInv s)
-    (hv : alookup a s.votes = some v)
-    (hdiv : s.minVP ≤ v.vp + (new - old) → Divisible (new - old) v.weights) :
+    (hv : alookup a s.votes = some v) :
     WF (s.processHook a val v old new) ∧ DistInv (s.processHook a val v old new) := by
   unfold State.processHook
   simp only
   split
   · exact revokeVote_inv wf inv hv
   · rename_i hge
-    have hge' : s.minVP ≤ v.vp + (new - old) := by omega
     have hvok : VoteOK v := wf.votes _ (alookup_mem hv)
     have hnew : 0 ≤ v.vp + (new - old) := by have := wf.minVP; omega
-    have hus : Sorted (applyWeights (new - old) v.weights).gauges := Sorted_applyWeights hvok.nodup
-    have hadd := fun g => wpow_add_of_dvd hvok.vp hnew hvok.pos (hdiv hge') g
-    have hnn : ∀ g, 0 ≤ gget (applyWeights (new - old) v.weights).gauges g + gget s.dist.gauges g := by
-      intro g
-      rw [gget_applyWeights, inv.gauges, vsum_aerase _ wf.keys hv]
-      have h1 := wpow_nonneg hnew hvok.pos g
-      have h2 := vsum_nonneg (fun v => v.pow g) (l := aerase a s.votes)
-        (fun x hx => (wf.votes x (mem_aerase.mp hx).1).pow_nonneg g)
-      have := hadd g
-      show 0 ≤ _ + (wpow v.vp v.weights g + _)
-      omega
-    refine ⟨⟨wf.minVP, ?_, KeysNodup_aset _ _ wf.keys, ?_⟩, ⟨?_, ?_⟩⟩
-    · exact merge_sorted hus wf.sorted
-    · intro x hx
-      rcases List.mem_cons.mp hx with rfl | hx
-      · exact ⟨hnew, hvok.nodup, hvok.pos⟩
-      · exact wf.votes x (mem_aerase.mp hx).1
-    · intro g
-      show gget ((applyWeights (new - old) v.weights).merge s.dist).gauges g = vsum _ (aset a _ s.votes)
-      rw [merge_gget hus wf.sorted g (hnn g), gget_applyWeights, inv.gauges, vsum_aerase _ wf.keys hv]
-      simp only [aset, vsum, Vote.pow]
-      have := hadd g
-      omega
-    · show (new - old) + s.dist.vp = vsum _ (aset a _ s.votes)
-      rw [inv.vp, vsum_aerase _ wf.keys hv]
-      simp only [aset, vsum]; omega
+    have r := revokeVote_inv wf inv hv
+    have hnv : VoteOK ⟨v.vp + (new - old), v.weights⟩ := ⟨hnew, hvok.nodup, hvok.pos⟩
+    exact add_vote_inv (s := s.revokeVote a v) (nv := ⟨v.vp + (new - old), v.weights⟩) r.1 r.2
+      (by rw [revokeVote_votes]; exact alookup_aerase_self _ _) hnv (toDist_sorted hnv)
+      (fun g => gget_toDist _ g) rfl _ rfl
+      (by show aset a _ s.votes = aset a _ (aerase a s.votes); simp only [aset, aerase_idem]) rfl
 
 end DymVerif.Spons
